@@ -197,14 +197,9 @@ func c01(c *ctx) {
 	min23 := c.field("lib", "ValidatorSet", "MinimumMaj23")
 	if min23 != nil {
 		c.mpt(mptSpec{rule: "R3", fn: getMajority, events: evSet{},
-			atom: func(v ssa.Value) (string, bool) {
-				if b, ok := v.(*ssa.BinOp); ok && (b.Op == token.GEQ || b.Op == token.LSS) {
-					if f, _ := loadedField(b.Y); f == min23 && strings.HasSuffix(c.p.path(b.X), ".TotalVotedPower") {
-						return "power>=maj23", b.Op == token.LSS
-					}
-				}
-				return "", false
-			},
+			atom: ordAtom("power>=maj23", token.GEQ,
+				func(x ssa.Value) bool { return strings.HasSuffix(c.p.path(x), ".TotalVotedPower") },
+				func(y ssa.Value) bool { f, _ := loadedField(y); return f == min23 }),
 			target: tgtReturnVal("majority-return", 0, true),
 			reqs:   func(string) []string { return []string{"@power>=maj23=T"} }, minTarget: 1})
 		c.mpt(mptSpec{rule: "R3", fn: checkHighQC, events: evSet{"Check": {qcCheck}},
